@@ -139,6 +139,118 @@ struct P {
         } catch (const TooMany &) {
             return "callback invoked more than " + std::to_string(cells) + " times (the box has that many tuples)";
         }
+        // further traversals of the same box, each with the same visit-count model:
+        //  (a) callbacks that return a value (std::function<void(Tuple)> discards it: a falsy or truthy result must not
+        //      influence the iteration);
+        //  (b) a callback that itself iterates over another box of the same tuple type (a stencil around each cell):
+        //      the inner traversals must be complete and must not disturb the outer one.
+        auto rank_of = [&](const tuple_t & t, const std::vector<uint64_t> & ext) -> int64_t {
+            uint64_t rank = 0;
+            for (size_t k = 0; k < N; ++k) {
+                if (t[k] < T(0) || uint64_t(t[k]) >= ext[k]) {
+                    return -1;
+                }
+                rank = rank * ext[k] + uint64_t(t[k]);
+            }
+            return int64_t(rank);
+        };
+        std::optional<std::string> bad2;
+        auto verdict_of = [&](const char * what, uint64_t n, const std::vector<uint32_t> & sv, uint64_t want) -> std::optional<std::string> {
+            if (n != want) {
+                return std::string(what) + ": callback invoked " + std::to_string(n) + " times, box has " + std::to_string(want) + " tuples";
+            }
+            for (uint64_t r = 0; r < want; ++r) {
+                if (sv[r] != 1) {
+                    return std::string(what) + ": tuple of rank " + std::to_string(r) + " visited " + std::to_string(sv[r]) + " times";
+                }
+            }
+            return std::nullopt;
+        };
+        if (!bad && cells <= 65536) {
+            for (unsigned variant = 0; variant < 4 && !bad2; ++variant) {
+                std::vector<uint32_t> seen2(cells, 0);
+                uint64_t calls2 = 0;
+                auto body = [&](const tuple_t & t) {
+                    if (++calls2 > cells + 8) {
+                        throw TooMany{};
+                    }
+                    int64_t r = rank_of(t, c.ext);
+                    if (r < 0) {
+                        bad2 = std::string("value-returning callback received a tuple outside the box");
+                    } else {
+                        seen2[size_t(r)]++;
+                    }
+                };
+                try {
+                    switch (variant) {
+                        case 0: covfie::utility::nd_map<tuple_t>([&](tuple_t t) { body(t); return false; }, s); break;
+                        case 1: covfie::utility::nd_map<tuple_t>([&](tuple_t t) { body(t); return int(calls2 - 1); }, s); break;   // 0 on the first call
+                        case 2: covfie::utility::nd_map<tuple_t>([&](tuple_t t) { body(t); return true; }, s); break;
+                        default: covfie::utility::nd_map<tuple_t>([&](tuple_t t) { body(t); return (calls2 % 2) ? static_cast<const void *>(nullptr) : static_cast<const void *>(&calls2); }, s); break;
+                    }
+                } catch (const TooMany &) {
+                    return std::string("value-returning callback invoked more than ") + std::to_string(cells) + " times";
+                }
+                static const char * names[] = {"callback returning false", "callback returning its call index (0 first)", "callback returning true", "callback returning a null / non-null pointer"};
+                if (!bad2) {
+                    bad2 = verdict_of(names[variant], calls2, seen2, cells);
+                }
+            }
+            label("value-returning callbacks");
+        }
+        if (!bad && !bad2 && cells <= 4096) {
+            std::vector<uint64_t> iext(N);
+            tuple_t is;
+            uint64_t icells = 1;
+            for (size_t k = 0; k < N; ++k) {
+                iext[k] = c.ext[(k + 1) % N] % 3 + 1;   // 1..3 per axis, related to the outer extents but not equal to them
+                is[k] = static_cast<T>(iext[k]);
+                icells *= iext[k];
+            }
+            std::vector<uint32_t> seen3(cells, 0), iseen(icells, 0);
+            uint64_t calls3 = 0;
+            try {
+                covfie::utility::nd_map<tuple_t>(
+                    [&](tuple_t t) {
+                        if (++calls3 > cells + 8) {
+                            throw TooMany{};
+                        }
+                        std::fill(iseen.begin(), iseen.end(), 0u);
+                        uint64_t icalls = 0;
+                        covfie::utility::nd_map<tuple_t>(
+                            [&](tuple_t u) {
+                                if (++icalls > icells + 8) {
+                                    throw TooMany{};
+                                }
+                                int64_t r = rank_of(u, iext);
+                                if (r < 0) {
+                                    bad2 = std::string("nested traversal: inner callback received a tuple outside the inner box");
+                                } else {
+                                    iseen[size_t(r)]++;
+                                }
+                            },
+                            is
+                        );
+                        if (!bad2) {
+                            bad2 = verdict_of("nested traversal, inner box", icalls, iseen, icells);
+                        }
+                        int64_t r = rank_of(t, c.ext);
+                        if (r < 0) {
+                            bad2 = std::string("nested traversal: outer callback received a tuple outside the box after an inner traversal");
+                        } else {
+                            seen3[size_t(r)]++;
+                        }
+                    },
+                    s
+                );
+            } catch (const TooMany &) {
+                return std::string("nested traversal: a callback was invoked more often than its box has tuples");
+            }
+            if (!bad2) {
+                bad2 = verdict_of("nested traversal, outer box", calls3, seen3, cells);
+            }
+            label("nested traversal (callback iterates over a second box of the same tuple type)");
+        }
         bool nontriv = N >= 2 && !all_equal;
         Hasher h;
         h.vec(c.ext);
@@ -162,6 +274,9 @@ struct P {
             if (seen[r] != 1) {
                 return "tuple of rank " + std::to_string(r) + " visited " + std::to_string(seen[r]) + " times";
             }
+        }
+        if (bad2) {
+            return bad2;
         }
         return std::nullopt;
     }
